@@ -129,6 +129,10 @@ TABLE = {
     ),
 }
 ORDER = sorted(TABLE)
+SAST_A = ["add-requests-timeouts", "django-json-response-type", "enable-jinja2-autoescape", "harden-pyyaml", "harden-ruamel"]
+SAST_B = ["jwt-decode-verify", "limit-readline", "requests-verify", "safe-lxml-parser-defaults", "safe-lxml-parsing"]
+SAST_C = ["sandbox-process-creation", "secure-flask-cookie", "secure-random"]
+SAST_D = ["upgrade-sslcontext-tls", "url-sandbox", "fix-deprecated-logging-warn"]
 
 
 def sel(pool, i):
@@ -267,6 +271,16 @@ def _target_call(src):
         if isinstance(node, ast.Assign) and len(node.targets) == 1 and isinstance(node.targets[0], ast.Name) and node.targets[0].id == "r":
             return node.value
     return None
+
+
+def check_kind(name, style, args, decoy, layout, kind):
+    """Only the C01 part ('compile') or the C02 part ('unresolved') of the oracle."""
+    v = check(name, style, args, decoy, layout)
+    if v is None:
+        return None
+    if kind == "compile":
+        return v if v.startswith("rewritten module does not compile") else None
+    return v if v.startswith("names became unresolved") else None
 
 
 def check(name, style, args, decoy, layout):
